@@ -2,6 +2,7 @@ package rules
 
 import (
 	"go/ast"
+	"go/constant"
 	"go/types"
 
 	"golang.org/x/tools/go/packages"
@@ -58,4 +59,16 @@ func isTypeSwitchBinding(info *types.Info, stack []ast.Node, id *ast.Ident) bool
 		}
 	}
 	return false
+}
+
+func constantInt64(v constant.Value) (int64, bool) {
+	v = constant.ToInt(v)
+	if v.Kind() != constant.Int {
+		return 0, false
+	}
+	return constant.Int64Val(v)
+}
+
+func constantBool(v constant.Value) bool {
+	return v.Kind() == constant.Bool && constant.BoolVal(v)
 }
